@@ -232,7 +232,7 @@ pub fn judge(h: &History, recs: &[StepRec]) -> Result<u32, Failure> {
         let fail = |fp: String, d: String| Failure::new("rx-window", case(), format!("step {}.{}: {d}{view_note}\n{}", r.index, r.sub, render(&recs[..recs.iter().position(|x| std::ptr::eq(x, r)).unwrap() + 1], 4))).with_fp(fp);
         let delay = if join { 5000 } else { snap_inforce.rx1_delay };
         let tx_ms = h.board.tx_ms;
-        if h.cfg.front == FrontKind::Nb {
+        if h.cfg.front.is_nb() {
             let rxs: Vec<&Rf> = r.trace.iter().filter_map(|e| if let Ev::RxRequest { rf } = e { Some(rf) } else { None }).collect();
             let tos: Vec<u32> = r.trace.iter().filter_map(|e| if let Ev::TimeoutReq(t) = e { Some(*t) } else { None }).collect();
             if rxs.is_empty() {
@@ -427,7 +427,7 @@ pub fn run(ctx: &mut Ctx) {
                         steps.push(Step::Join(RxPlan::default()));
                         let h = History { cfg: DevCfg { region: *region, join_bias: if reg.fixed() && rng.bool() { Some((1 + rng.below(8) as u8, 1 + rng.below(3) as usize)) } else { None }, front: *front, board: (14, 0) },
                             activation: if *otaa { Activation::Otaa } else { Activation::Abp { fcnt_up: 0, fcnt_down: None } },
-                            board: Board { tx_ms: if *front == FrontKind::Nb { [0u32, 3, 1500, 0x7FFF_FE00, 0xFFFF_FC18, 0xFFFF_FFFF][(off as usize + delay as usize) % 6] } else { [0, 3, 1500][(off as usize) % 3] }, lead_ms: timing, buffer_ms: timing / 2, nb_offset_ms: [0i32, -10, 25, -200][(delay as usize) % 4], nb_duration_ms: [100 + timing, 100 + timing, 999, 1000, 1001, 1500, 2500][(off as usize * 16 + delay as usize) % 7], nb_async_tx: rng.bool(), snr: 0 },
+                            board: Board { tx_ms: if front.is_nb() { [0u32, 3, 1500, 0x7FFF_FE00, 0xFFFF_FC18, 0xFFFF_FFFF][(off as usize + delay as usize) % 6] } else { [0, 3, 1500][(off as usize) % 3] }, lead_ms: timing, buffer_ms: timing / 2, nb_offset_ms: [0i32, -10, 25, -200][(delay as usize) % 4], nb_duration_ms: [100 + timing, 100 + timing, 999, 1000, 1001, 1500, 2500][(off as usize * 16 + delay as usize) % 7], nb_async_tx: rng.bool(), snr: 0 },
                             rng_script: vec![rng.next_u32(), rng.next_u32()], rng_seed: rng.next_u64(), steps };
                         // the hook enumeration on the state before the final re-join: run on a prefix
                         let mut hp = h.clone();
@@ -454,7 +454,7 @@ pub fn run(ctx: &mut Ctx) {
             h.board.nb_offset_ms = o * 15;
             h.board.tx_ms = t * 7;
             h.board.nb_duration_ms = [100, 150, 999, 1000, 1001, 3000][(h.rng_seed % 6) as usize];
-            if h.cfg.front == FrontKind::Nb {
+            if h.cfg.front.is_nb() {
                 // on the nb front-end the radio reports a timestamp: a clock that is about to wrap
                 h.board.tx_ms = [t * 7, t * 7, 0x7FFF_FB00 + t * 300, 0xFFFF_F800 + t * 400, 0xFFFF_FFFF][((h.rng_seed >> 8) % 5) as usize];
             }
